@@ -2,9 +2,12 @@
 // (generator is total on the tree shapes of the parser), decided on the REAL functions of /repo/Compiler/src/gen.cpp:
 // GenState::popSymbols/backpatch/createLabel/setLabel/emitBackpatched, FunctionGenState::fetchTemporary/releaseTemporary/
 // fetchVariableRegister, dispatchValue (CALL), dispatchCallArgs, dispatchArgs, dispatchProgram, dispatchGoto/If/Mark/Loop/While/
-// Assign/Void, gen_ast, Theo::gen.  Nothing of the generator is re-implemented here: the harness builds small node structures
-// exactly as parse.cpp builds them (on its stack), with SYMBOLIC names and counts, runs the real code and compares the result
-// with the rule written as a predicate over the harness' own choice variables.
+// Assign/Void, gen_ast, Theo::gen.  Nothing of the generator is re-implemented here (exception: the ten statements of Theo::gen()
+// around gen_ast() are mirrored in run_gen() of part 5, see there): the harness builds small node structures exactly as parse.cpp
+// builds them (on its stack), with SYMBOLIC names, table contents and operands, runs the real code and compares the result with the
+// rule written as a predicate over the harness' own choice variables.  COUNTS (arguments, parameters, statements) are fixed per
+// entry: all containers of the generator live in the one GenState object, and a write at a symbolic position is encoded by CBMC as
+// a byte-wise update of that whole object, after which no field is a constant for the symbolic execution (see sym_code).
 //
 //  h_regs_step / h_regs_seq   one register operation from an arbitrary register file (layer A) / hygiene over two operations
 //  h_call                     dispatchValue(CALL) against a symbolic funcAddrs table: rules of C04, call-sequence shape of C03, C16
@@ -29,18 +32,17 @@ int CEX_op, CEX_idx, CEX_name, CEX_nregs, CEX_reg_temp[GR_REGS], CEX_reg_used[GR
 int CEX_nf, CEX_first_g, CEX_callee, CEX_nargs, CEX_arg_kind[2], CEX_arg_name[2], CEX_argnum[2], CEX_stack[2], CEX_ind[2], CEX_mi[2], CEX_tgt, CEX_n0;
 int CEX_rname, CEX_nparams, CEX_param[2], CEX_has_ports, CEX_has_out, CEX_out, CEX_body_k, CEX_body_var, CEX_body_tmp;
 int CEX_kind[8], CEX_lab[8];
-int CEX_shape;
 }
 
 // one-character names chosen by symbolic index.  The strings are built once (init_names) and copied afterwards (a copy is
 // one struct assignment in the container model).  f < g < h, a < b < c, l < m: all insertion positions of the maps occur.
 static const char *const TEMP = "Temporary Variable";
-static std::string FN[3], VN[3], LN[2], TEMPS, MFILE;
+static std::string FN[3], VN[3], LN[2], TEMPS;
 static void init_names() {
   FN[0] = std::string("f"); FN[1] = std::string("g"); FN[2] = std::string("h");
   VN[0] = std::string("a"); VN[1] = std::string("b"); VN[2] = std::string("c");
   LN[0] = std::string("l"); LN[1] = std::string("m");
-  TEMPS = std::string(TEMP); MFILE = std::string("m");
+  TEMPS = std::string(TEMP);
 }
 static std::string sel3(const std::string *t, int i) { std::string r = t[0]; if (i == 1) r = t[1]; if (i == 2) r = t[2]; return r; }
 static std::string sel2(const std::string *t, int i) { std::string r = t[0]; if (i == 1) r = t[1]; return r; }
@@ -89,9 +91,6 @@ static GenState fresh_state() {
 static void mknode(Node &n, Node::Type t, const std::string &tok, Node *l, Node *r) {
   std::string m; m.__push('m');    // (built locally: a copy from a global string is a byte-wise memcpy in the generated C, which would blur the whole node)
   n.t = t; n.tok = tok; n.file = m; n.line = 1; n.left = l; n.right = r;
-}
-static bool same_instr(const Instruction &a, const Instruction &b) {
-  return (a.op == b.op) & (a.parameters.test.target == b.parameters.test.target) & (a.parameters.test.op1 == b.parameters.test.op1) & (a.parameters.test.op2 == b.parameters.test.op2);
 }
 static Instruction code_at(const GenState &gs, int at) { Instruction r = gs.out.code.u.d[0]; for (int i = 1; i < GR_CODE; i++) if (i == at) r = gs.out.code.u.d[i]; return r; }
 static int count_err(const GenState &gs, ET t) { int c = 0; for (int i = 0; i < MINISTL_VEC_CAP; i++) if (i < (int)gs.errors.size() && gs.errors.u.d[i].t == t) c++; return c; }
